@@ -716,7 +716,7 @@ def gen_call(rng, case, kind):
     raise ValueError(kind)
 
 
-KINDS = ["positional", "positional", "keyword", "keyword", "kw_subset", "kw_over_pos", "global", "unknown", "partial",
+KINDS = ["positional", "positional", "keyword", "keyword", "kw_subset", "kw_over_pos", "global", "global", "unknown", "partial",
          "surplus", "side_global", "malformed", "halfway", "halfway", "sub_setter", "identity"]
 
 
